@@ -241,6 +241,15 @@ def L(p):
     t['coverage-str'] = lambda W: p.coverage(S1, ['PEK[Oxidation]', 'T[1.5]K'])
     t['find_subsequence_indices-str'] = lambda W: p.find_subsequence_indices(S1, 'K')
     t['isotopic_distribution-str'] = lambda W: p.isotopic_distribution(W['formula'], 3)
+    t['fragment-losses-ammonia'] = lambda W: p.fragment(W[A], ['b', 'y'], [1], losses=W['losses'], ammonia_loss=True,
+                                                        max_losses=2)
+    t['fragment-losses-water'] = lambda W: p.fragment(W[A], ['b', 'y'], [1], losses=W['losses'], water_loss=True)
+    t['Fragmenter-losses-ammonia'] = lambda W: W['fragmenter'].fragment(['b'], [1], losses=W['losses'], ammonia_loss=True,
+                                                                       max_losses=2)
+    t['apply_variable_mods-nomatch-annotation'] = lambda W: p.apply_variable_mods(W[A], {'[WY]': 'Phospho'}, 1,
+                                                                                  return_type='annotation')
+    t['apply_static_mods-nomatch-annotation'] = lambda W: p.apply_static_mods(W[A], {'[WY]': 'Phospho'},
+                                                                              return_type='annotation')
     t['C.__eq__'] = lambda W: (W['C'] == W['C2'], W['C2'] != W['C'])
     t['find_subsequence_indices-C'] = lambda W: p.find_subsequence_indices(W['C'], W['C2'])
     t['is_subsequence-C'] = lambda W: (p.is_subsequence(W['C2'], W['C']), p.is_subsequence(W['C2'], W['C'], order=False))
